@@ -49,7 +49,9 @@ def base_attrs(rng, wide=False, confed=False, pad=None, agg=None):
         attrs.append([0, 5, 0, rng.choice([100, 0, 4294967295]), ['b', []]])
     if agg is not None:
         attrs.append([1, 7, 0, 0, ['b', W.be32(agg) + [192, 0, 2, 9]]])
-    if pad is not None:
+    # an empty COMMUNITIES attribute is malformed on the wire (RFC 7606; repo commit 36a2dde)
+    # and nothing the daemon holds can carry one: the padding attribute is never empty
+    if pad is not None and pad > 0:
         attrs.append([1, 8, 0, 0, ['pat', pad, rng.randint(0, 255)]])
     if rng.random() < 0.3:
         attrs.append([2, rng.choice([200, 201, 250]), rng.choice([0xC0, 0xE0, 0xD0]), 0, ['pat', rng.choice([0, 1, 7, 255, 256, 300]), 5]])
